@@ -33,9 +33,12 @@ func c14Push(c *core.Ctx) {
 	acceptNil := r.Bool()
 	acceptStacks := r.Bool()
 	var calls [][]any
+	var seenLens []int // what the closure finds in the receiver at each consult (approved values are IN by the next consult)
+	var s stackage.Stack
 	errs := map[int]error{}
 	policy := func(x ...any) error {
 		calls = append(calls, append([]any{}, x...))
+		seenLens = append(seenLens, s.Len())
 		if len(x) != 1 {
 			return errors.New("policy called with an unexpected number of arguments")
 		}
@@ -63,7 +66,7 @@ func c14Push(c *core.Ctx) {
 		errs[id] = e
 		return e
 	}
-	s := NewStack(kind, capacity).SetPushPolicy(policy)
+	s = NewStack(kind, capacity).SetPushPolicy(policy)
 	if r.Chance(1, 4) {
 		s.SetNoNesting(true) // documented to have no effect once a push policy is installed
 	}
@@ -107,6 +110,7 @@ func c14Push(c *core.Ctx) {
 		log = append(log, fmt.Sprint(batch))
 		// model
 		var wantCalls [][]any
+		var wantLens []int
 		rejectedAt := -1
 		for i, v := range batch {
 			if m.Full() {
@@ -114,6 +118,7 @@ func c14Push(c *core.Ctx) {
 				continue
 			}
 			wantCalls = append(wantCalls, []any{v})
+			wantLens = append(wantLens, m.Len())
 			ok := false
 			if v == nil {
 				ok = acceptNil
@@ -132,6 +137,7 @@ func c14Push(c *core.Ctx) {
 			midReject = true
 		}
 		calls = nil
+		seenLens = nil
 		for k := range errs {
 			delete(errs, k)
 		}
@@ -148,6 +154,10 @@ func c14Push(c *core.Ctx) {
 				key = "policy-not-consulted"
 			}
 			c.Violatef(key, desc(), "policy call log %v, expected %v (batch %v, capacity %d, stored before %d)", calls, wantCalls, batch, capacity, m.Len()-len(wantCalls))
+			return
+		}
+		if !reflect.DeepEqual(seenLens, wantLens) && len(wantLens) > 0 {
+			c.Violatef("policy-sees-stale-receiver", desc(), "at its consults the policy found the receiver holding %v elements, expected %v (each approved value is appended before the next one is offered); batch %v", seenLens, wantLens, batch)
 			return
 		}
 		if a, d := ObserveList(s, m); a != "" {
@@ -234,6 +244,7 @@ func c14Closures(c *core.Ctx) {
 	mErr := errors.New("marshal closure says no")
 	uOut := []any{"CUSTOM", 1}
 	var installed struct{ vp, vpReject, pp, eq, um, ma bool }
+	maNil := false
 	hits := map[string]int{}
 	for step, n := 0, r.Range(2, 6); step < n; step++ {
 		switch r.Intn(10) {
@@ -296,7 +307,13 @@ func c14Closures(c *core.Ctx) {
 			}
 			installed.um = false
 		case 8:
-			s.SetMarshaler(func(...any) error { hits["marshal"]++; return mErr })
+			maNil = r.Chance(1, 3)
+			if maNil {
+				// a closure that reports success although the receiver picked up an error while it ran
+				s.SetMarshaler(func(...any) error { hits["marshal"]++; s.SetErr(vErr); return nil })
+			} else {
+				s.SetMarshaler(func(...any) error { hits["marshal"]++; return mErr })
+			}
 			installed.ma = true
 			log = append(log, "SetMarshaler(f)")
 		case 9:
@@ -408,7 +425,14 @@ func c14Closures(c *core.Ctx) {
 		}
 		if installed.ma {
 			before := s.Len()
-			if merr := s.Marshal("AND", "x"); merr != mErr || s.Len() != before {
+			if maNil {
+				merr := s.Marshal("AND", "x")
+				s.SetErr(nil)
+				if merr != nil || s.Len() != before {
+					c.Violatef("marshal-closure-ignored", desc(), "Marshal()=%v Len %d->%d; the closure returns nil (and stores nothing)", merr, before, s.Len())
+					return
+				}
+			} else if merr := s.Marshal("AND", "x"); merr != mErr || s.Len() != before {
 				c.Violatef("marshal-closure-ignored", desc(), "Marshal()=%v Len %d->%d; closure returns its own error and stores nothing", merr, before, s.Len())
 				return
 			}
